@@ -16,5 +16,5 @@ type (
 	Once      = vs.VOnce
 	Locker    = sync.Locker
 	Map       = sync.Map
-	Pool      = sync.Pool
+	Pool      = vs.VPool
 )
